@@ -12,13 +12,13 @@ def dst? (o : Op) (k : String) : Option Dst :=
   | _ => none
 
 def showRes : Res → String
-  | .panic => "panic"
-  | .ok ret mem => s!"ok ret={toHex ret} mem={toHex mem}"
+  | .panic => "panic mut=-"
+  | .ok ret mem => s!"ok ret={toHex ret} mem={toHex mem} mut=-"
 
 def inArena (n : Nat) (s : Sl) : Bool := s.off + s.len ≤ n
 
 /-- `ov f=<fn> arena=<hex> src=off,len dst=off,len,cap ad=off,len out=<hex: result on separate buffers>` -/
-def handle (line : String) : String :=
+def handle1 (line : String) : String :=
   let o := parseOp line
   if o.cmd != "ov" then "bad-op" else
   match o.get? "f", o.hex? "arena", sl? o "src", dst? o "dst", sl? o "ad", o.hex? "out" with
@@ -45,5 +45,13 @@ def handle (line : String) : String :=
       showRes (appendNoOverlap out mem dst src)
     else "bad-op"
   | _, _, _, _, _, _ => "bad-op"
+
+/-- one op, or a session `ovs <op> ## <op> ## …`: the harness runs the ops of a session on the same arena,
+    key and nonce arrays (contents replaced in place); `mut=` reports writes to the key / nonce arrays or
+    their slack and is `-` for the model -/
+def handle (line : String) : String :=
+  if line.startsWith "ovs " then
+    " ## ".intercalate (((line.drop 4).toString.splitOn " ## ").map handle1)
+  else handle1 line
 
 end XC.C53
